@@ -288,6 +288,7 @@ pub fn run_scenario(sc: &Scenario, sh: Arc<Mutex<Shared>>) -> J {
         let mut delivered: Vec<J> = Vec::new();    // (seed, outcome) of every completion the controller took, in order
         let mut forced_pos = 0usize;
         let mut released: Vec<u64> = Vec::new();   // accept/reject completions released by the script, in release order
+        let mut released_round: HashMap<u64, usize> = HashMap::new();
         let mut held: Vec<Slot> = Vec::new();      // twin run: completions that are withheld stay in flight for ever
         loop {
             // let the controller run until nothing observable changes any more
@@ -394,6 +395,7 @@ pub fn run_scenario(sc: &Scenario, sh: Arc<Mutex<Shared>>) -> J {
                     _ => {
                         if sc.withhold.contains(&slot.seed) { held.push(slot); continue; }
                         released.push(slot.seed);
+                        released_round.insert(slot.seed, round);
                         pending.insert(slot.seed, o.clone());
                     }
                 }
@@ -405,9 +407,13 @@ pub fn run_scenario(sc: &Scenario, sh: Arc<Mutex<Shared>>) -> J {
         let g = sh2.lock().unwrap();
         // completions that were released (the evaluation had finished) but never taken by the controller
         let undelivered: Vec<u64> = released.iter().filter(|s| pending.contains_key(s)).cloned().collect();
+        // ... and among them those that had finished at least one full controller round before the run returned
+        // (the controller ran again and again without taking them): [seed, round released, order code of the value]
+        let parked: Vec<J> = undelivered.iter().filter(|s| released_round.get(s).map(|r| r + 1 < round).unwrap_or(false))
+            .filter_map(|s| match pending.get(s) { Some(Outcome::Acc(x)) => Some(json!([s, released_round[s], order_code(*x)])), _ => None }).collect();
         drop(held);
         json!({"maxInflight": g.max_inflight, "dupInflight": g.dup_inflight, "undelivered": undelivered, "returned": result.is_some(),
-               "delivered": delivered, "terminates": terminated})
+               "delivered": delivered, "terminates": terminated, "parked": parked, "lastRound": round})
     });
     let g = sh.lock().unwrap();
     let mut line = json!({"mode": "ctl", "cfg": g.header, "rounds": g.rounds, "stats": ret});
